@@ -83,10 +83,11 @@ def leg_t(prop):
                 e, r_, s = fu.result()
                 tot += e; rej += r_; st += s
         conc = None
-        if prop == "C04":
-            # concurrent pollers + submitter, ordered by the verif hook under Manager.mu
+        if prop in ("C04", "C19"):
+            # concurrent pollers + submitter (C19: + a pruner), ordered by the verif hook under Manager.mu
             nc = 16 if tier == "quick" else 200
-            cres = vlib.go_run(binary, "TestConcurrent", wd, env={"VERIF_HISTORIES": nc, "VERIF_SHARDS": shards}, timeout=3000, tag="concurrent")
+            cres = vlib.go_run(binary, "TestConcurrent", wd, env={"VERIF_HISTORIES": nc, "VERIF_SHARDS": shards,
+                                                                  "VERIF_CONC_PRUNE": "1" if prop == "C19" else "0"}, timeout=3000, tag="concurrent")
             verdict.add_all(cres["mismatches"])
             ctot = crej = 0
             with cf.ThreadPoolExecutor(max_workers=12) as ex:
